@@ -21,6 +21,8 @@ pub mod probes;
 pub mod c04_stack;
 #[cfg(feature = "c10")]
 pub mod c10_xo;
+#[cfg(feature = "c13")]
+pub mod c13_weighted;
 #[cfg(feature = "c14")]
 pub mod c14_compose;
 #[cfg(feature = "c15")]
